@@ -5,6 +5,7 @@ package gitinterface
 
 import (
 	"fmt"
+	"io"
 	"sort"
 	"strings"
 )
@@ -25,40 +26,32 @@ func (r *Repository) GetFilePathsChangedByCommit(commitID Hash) ([]string, error
 	}
 
 	if len(parentCommitIDs) == 0 {
-		filePaths, err := r.executor("ls-tree", "--name-only", "-r", commitID.String()).executeString()
+		paths, err := r.executor("ls-tree", "--name-only", "-r", "-z", commitID.String()).executeNULSeparated()
 		if err != nil {
 			return nil, fmt.Errorf("unable to identify all commit file paths: %w", err)
 		}
 
-		paths := strings.Split(filePaths, "\n")
 		return paths, nil
 	}
 
 	if len(parentCommitIDs) > 1 {
 		// Check if tree matches last commit
-		stdOut, err := r.executor("diff-tree", "--no-commit-id", "--name-only", "-r", parentCommitIDs[len(parentCommitIDs)-1].String(), commitID.String()).executeString()
+		lastParentPaths, err := r.executor("diff-tree", "--no-commit-id", "--name-only", "-r", "-z", parentCommitIDs[len(parentCommitIDs)-1].String(), commitID.String()).executeNULSeparated()
 		if err != nil {
 			return nil, fmt.Errorf("unable to diff commit against last parent commit: %w", err)
 		}
-		if stdOut == "" {
+		if len(lastParentPaths) == 0 {
 			return nil, nil
 		}
 
 		pathSet := map[string]bool{}
 		for _, parentCommitID := range parentCommitIDs {
-			stdOut, err := r.executor("diff-tree", "--no-commit-id", "--name-only", "-r", parentCommitID.String(), commitID.String()).executeString()
+			paths, err := r.executor("diff-tree", "--no-commit-id", "--name-only", "-r", "-z", parentCommitID.String(), commitID.String()).executeNULSeparated()
 			if err != nil {
 				return nil, fmt.Errorf("unable to diff commit against parent: %w", err)
 			}
-			if stdOut == "" {
-				continue
-			}
 
-			paths := strings.Split(stdOut, "\n")
 			for _, path := range paths {
-				if path == "" {
-					continue
-				}
 				pathSet[path] = true
 			}
 		}
@@ -75,14 +68,39 @@ func (r *Repository) GetFilePathsChangedByCommit(commitID Hash) ([]string, error
 		return paths, nil
 	}
 
-	stdOut, err := r.executor("diff-tree", "--no-commit-id", "--name-only", "-r", fmt.Sprintf("%s~1", commitID.String()), commitID.String()).executeString()
+	paths, err := r.executor("diff-tree", "--no-commit-id", "--name-only", "-r", "-z", fmt.Sprintf("%s~1", commitID.String()), commitID.String()).executeNULSeparated()
 	if err != nil {
 		return nil, fmt.Errorf("unable to diff commit against parent: %w", err)
 	}
-	if stdOut == "" {
+	if len(paths) == 0 {
 		return nil, nil
 	}
 
-	paths := strings.Split(stdOut, "\n")
 	return paths, nil
+}
+
+// executeNULSeparated runs the constructed Git command, which must have been
+// given -z, and returns the NUL-terminated records of stdout verbatim. Unlike
+// line-oriented output, path names in these records are never quoted, and no
+// whitespace is trimmed.
+func (e *executor) executeNULSeparated() ([]string, error) {
+	stdOut, stdErr, err := e.execute()
+	if err != nil {
+		stdErrContents, newErr := io.ReadAll(stdErr)
+		if newErr != nil {
+			return nil, fmt.Errorf("unable to read stderr contents: %w; original err: %w", newErr, err)
+		}
+		return nil, fmt.Errorf("%w when executing `git %s`: %s", err, strings.Join(e.args, " "), string(stdErrContents))
+	}
+
+	stdOutContents, err := io.ReadAll(stdOut)
+	if err != nil {
+		return nil, fmt.Errorf("unable to read stdout contents: %w", err)
+	}
+
+	records := strings.Split(string(stdOutContents), "\x00")
+	if records[len(records)-1] == "" {
+		records = records[:len(records)-1]
+	}
+	return records, nil
 }
